@@ -120,6 +120,106 @@ fn iso_sd(d: SignedDuration, lower: bool, cls: &str) -> Value {
     }
 }
 
+// ---- friendly parser on grammar-generated texts ----------------------------------------------------
+const LABELS: [&[&str]; 10] = [
+    &["nanoseconds", "nanosecond", "nanos", "nano", "nsecs", "nsec", "ns"],
+    &["microseconds", "microsecond", "micros", "micro", "usecs", "usec", "us", "\u{b5}secs", "\u{b5}sec", "\u{b5}s"],
+    &["milliseconds", "millisecond", "millis", "milli", "msecs", "msec", "ms"],
+    &["seconds", "second", "secs", "sec", "s"],
+    &["minutes", "minute", "mins", "min", "m"],
+    &["hours", "hour", "hrs", "hr", "h"],
+    &["days", "day", "d"],
+    &["weeks", "week", "wks", "wk", "w"],
+    &["months", "month", "mos", "mo"],
+    &["years", "year", "yrs", "yr", "y"],
+];
+
+/// A text of the documented friendly grammar: units in descending order with any label, blank
+/// and comma variants, an optional fraction on the last unit, an optional clock, sign or "ago".
+fn gen_friendly(rng: &mut Rng) -> String {
+    let ws = |rng: &mut Rng| ["", " ", "  ", "\t"][(rng.next() % 4) as usize].to_string();
+    let mut s = String::new();
+    let style = rng.next() % 8; // 0: sign prefix, 1: ago, else none
+    if style == 0 {
+        s.push(if rng.chance(1, 2) { '-' } else { '+' });
+    }
+    if rng.chance(1, 8) {
+        // a bare clock
+        s.push_str(&format!("{:02}:{:02}:{:02}", rng.range(0, 120), rng.range(0, 59), rng.range(0, 59)));
+        if rng.chance(1, 2) {
+            let nd = 1 + rng.next() % 9;
+            s.push(if rng.chance(1, 4) { ',' } else { '.' });
+            for _ in 0..nd {
+                s.push((b'0' + (rng.next() % 10) as u8) as char);
+            }
+        }
+    } else {
+        let mut ranks: Vec<usize> = (0..10).filter(|_| rng.chance(1, 3)).collect();
+        if ranks.is_empty() {
+            ranks.push((rng.next() % 10) as usize);
+        }
+        ranks.reverse(); // descending
+        let clock_after = ranks.iter().all(|&r| r >= 6) && rng.chance(1, 5);
+        let n = ranks.len();
+        for (i, &r) in ranks.iter().enumerate() {
+            let v = match rng.next() % 4 {
+                0 => rng.range(0, 9),
+                1 => rng.range(0, 400),
+                2 => rng.range(0, 100_000),
+                _ => [19_998i64, 239_976, 1_043_497, 7_304_484, 175_307_616, 10_518_456_960, 631_107_417_600][(rng.next() % 7) as usize].min(if r >= 9 { 19_998 } else if r == 8 { 239_976 } else if r == 7 { 1_043_497 } else if r == 6 { 7_304_484 } else if r == 5 { 175_307_616 } else { i64::MAX }),
+            };
+            s.push_str(&v.to_string());
+            let last = i + 1 == n && !clock_after;
+            if last && r <= 5 && rng.chance(1, 3) {
+                let nd = 1 + rng.next() % 9;
+                s.push(if rng.chance(1, 5) { ',' } else { '.' });
+                for _ in 0..nd {
+                    s.push((b'0' + (rng.next() % 10) as u8) as char);
+                }
+            }
+            s.push_str(&ws(rng));
+            let ls = LABELS[r];
+            s.push_str(ls[(rng.next() % ls.len() as u64) as usize]);
+            if !last {
+                if rng.chance(1, 3) {
+                    s.push_str(", ");
+                    s.push_str(&ws(rng));
+                } else {
+                    // two units need a blank between them unless the label ends and digits begin
+                    s.push_str([" ", "  ", "", " "][(rng.next() % 4) as usize]);
+                }
+            }
+        }
+        if clock_after {
+            if !s.ends_with(' ') {
+                s.push(' ');
+            }
+            s.push_str(&format!("{:02}:{:02}:{:02}", rng.range(0, 23), rng.range(0, 59), rng.range(0, 59)));
+        }
+    }
+    if style == 1 {
+        s.push_str(" ago");
+    }
+    s
+}
+
+fn fr_parse(text: &str, cls: &str) -> Value {
+    static PARSER: SpanParser = SpanParser::new();
+    let sp = guard(|| PARSER.parse_span(text));
+    let sd = guard(|| PARSER.parse_duration(text));
+    let (sst, sv) = match &sp {
+        Ok(Ok(p)) => ("ok", jspan(p)),
+        Ok(Err(_)) => ("err", jspan(&Span::new())),
+        Err(_) => ("panic", jspan(&Span::new())),
+    };
+    let (dst, dv) = match &sd {
+        Ok(Ok(p)) => ("ok", jsd(*p)),
+        Ok(Err(_)) => ("err", jsd(SignedDuration::ZERO)),
+        Err(_) => ("panic", jsd(SignedDuration::ZERO)),
+    };
+    json!({"op":"fr_parse","cls":cls,"text":codes(text),"s":text,"span":{"st":sst,"p":sv},"sd":{"st":dst,"p":dv}})
+}
+
 pub fn run(a: &Args) {
     let mut out = Out::new(&a.out, "c15", 12_000);
     let mut rng = Rng::new(a.seed, 15);
@@ -197,6 +297,11 @@ pub fn run(a: &Args) {
             let c = if i < 12 { sweep[j] } else if j == 0 { sweep[(i * 7) % sweep.len()] } else { gen_cfg(&mut rng) };
             out.emit(fr_sd(d, &c, if c.prec >= 0 || c.frac == 1 || c.frac == 2 { "lossy-config" } else { cls }));
         }
+    }
+    // the friendly parser on texts drawn from the documented grammar (not only the printer's own output)
+    for _ in 0..(if a.quick() { 6000 } else { 200_000 }) {
+        let t = gen_friendly(&mut rng);
+        out.emit(fr_parse(&t, "grammar"));
     }
     out.finish();
 }
